@@ -106,8 +106,34 @@ ScenR ==
       n2 \in {"rb", "ra", "Sa", "s_a"},
       v2 \in {1, 2} }
 
+\* ------------------------------------------------------------- scenario P: patches
+ScenP ==
+  { << P("nsa", DStruct0("Sa", NoRef, <<f1>>)), P("nsa", DStruct0("Sb", R("Sa"), <<DField("g1", I32)>>)),
+       P("nsa", DUnionS("Ua", ca, NoRef, <<VT("t1")>>)), P("nsa", DAliasS("Aa", R("Sa"))) >> \o p1 \o p2 :
+      ca \in BOOLEAN,
+      p1 \in { <<>>,
+               <<P("nsa", PatchS("Sa", <<DField("h1", I32)>>))>>,
+               <<P("nsa", PatchS("Sa", <<DField("f1", Str)>>))>>,           \* mutates an existing field
+               <<P("nsa", PatchS("Sa", <<DField("g1", I32)>>))>>,           \* clashes with a descendant's field
+               <<P("nsa", PatchS("Sa", <<DField("h1", R("Zz"))>>))>>,       \* undefined type
+               <<P("nsa", PatchS("Sa", <<DFieldD("h1", I32), DField("h3", RN("Sb"))>>))>>,
+               <<P("nsa", PatchS("Zz", <<DField("h1", I32)>>))>>,           \* nothing to patch
+               <<P("nsa", PatchS("Aa", <<DField("h1", I32)>>))>>,           \* an alias is not a data type
+               <<P("nsa", PatchS("Ua", <<DField("h1", I32)>>))>>,           \* kind mismatch
+               <<P("nsa", PatchS("Sb", <<DField("h1", I32)>>))>>,
+               <<P("nsa", PatchS("Sb", <<DField("f1", I32)>>))>> },         \* clashes with an inherited field
+      p2 \in { <<>>,
+               <<P("nsa", PatchS("Sa", <<DField("h2", I32)>>))>>,           \* a second patch of the same struct
+               <<P("nsa", PatchS("Sa", <<DField("h1", Str)>>))>>,           \* clashes with the other patch
+               <<P("nsa", PatchU("Ua", FALSE, <<VT("t2")>>))>>,
+               <<P("nsa", PatchU("Ua", TRUE, <<VT("t2")>>))>>,
+               <<P("nsa", PatchU("Ua", FALSE, <<VT("t1")>>))>>,
+               <<P("nsa", PatchU("Ua", FALSE, <<VT("other")>>))>>,
+               <<P("nsa", PatchU("Ua", FALSE, <<TT("t2", R("Sa"))>>)), P("nsa", PatchU("Ua", FALSE, <<VT("t3")>>))>> } }
+
 Instances == CASE Scenario = "A" -> ScenA [] Scenario = "B" -> ScenB [] Scenario = "C" -> ScenC
                [] Scenario = "D" -> ScenD [] Scenario = "E" -> ScenE [] Scenario = "R" -> ScenR
+               [] Scenario = "P" -> ScenP
 InstSeq == SetToSeq(Instances)
 
 \* ------------------------------------------------------------- building files from an authoring
